@@ -27,6 +27,7 @@ type env struct {
 	u    *vh.Universe
 	s    *packet.Session
 	conn *vh.RecConn
+	fc   *failConn
 	arp  *arp_spoofer.Handler
 	dhcp *dhcp4_spoofer.Handler
 	h4   *icmp_spoofer.Handler4
@@ -57,6 +58,8 @@ func newEnv() (*env, error) {
 	if e.s, e.conn, err = vh.NewSession(e.u, 1, 2, 4); err != nil {
 		return nil, err
 	}
+	e.fc = &failConn{inner: e.conn}
+	e.s.Conn = e.fc // every frame the library sends goes through the failure injector
 	if e.arp, err = arp_spoofer.New(e.s); err != nil {
 		return nil, err
 	}
